@@ -6,7 +6,7 @@ HOOKS = {
     "add_only": True,
 }
 ENGINES = [
-    {"name": "benum", "path": "engine/benum", "serves_properties": ["C13", "C16"],
+    {"name": "benum", "path": "engine/benum", "serves_properties": ["C13", "C16", "C17"],
      "kind_free_text": "bounded exhaustive enumeration runtime: rank<->case bijections, 16-way sharding, fork isolation with progress cell, line protocol to the driver"},
     {"name": "vsched", "path": "engine/vsched", "serves_properties": ["C19"],
      "kind_free_text": "cooperative scheduler by link-time interposition of pthread mutex/cond/create/join, futex syscall and clock_gettime + stateless DFS explorer with iterative deviation bounding, 16 forked workers sharing a work stack, determinism re-runs, deadlock/livelock/hang detection, replay of recorded choice sequences"},
@@ -24,6 +24,13 @@ CHECKS = {
                 "all id pairs/triples over a wide 64-bit id set through id_order, all streams up to length 4-5 through CheckOrder, all short sequences through "
                 "ObjectPointerCollection::sort + CheckOrder; complete inside the grid, so a wrong comparison on any grid value combination is found.",
         "note": "Grid values are boundary values (zero/negative/positive ids up to +-2^63-1, version and timestamp extremes); values between grid points are not enumerated. Comparators using timestamps are judged only on objects with set timestamps, as the property states.",
+    },
+    "C17": {
+        "engine": "benum", "level": "exploration",
+        "technique": "exhaustive enumeration of node lists / areas over a location alphabet x options x output formats, decoded by independent WKB/WKT/GeoJSON readers; ASan-isolated sweep of (magnitude, precision 0..17) number formatting",
+        "text": "Every node list up to length 5|7 over {A,B,C,undefined,invalid} and every area over a ring alphabet is exported through every factory (WKB, EWKB, hex, WKT, EWKT, GeoJSON) x unique/all x forward/backward x identity/Mercator "
+                "and decoded by the harness's own readers; geometry, counts and cross-format agreement are compared with a reference model on each case; number text is compared with an exact 128-bit decimal reference for every precision 0..17 under ASan.",
+        "note": "Trusts the harness's decoders and the library's lonlat_to_mercator values (C18's subject); structure sweeps use precision 7 and 3, the precision axis is covered by the separate number sweep.",
     },
     "C19": {
         "engine": "vsched", "level": "model_checking",
